@@ -371,6 +371,14 @@ def run(prog: Program, chk: Check):
                     hard.append((f, n))
     R8.decide(not hard, f"{MGR}|no-hard-coded-header-class", mmod.rel, "no construction / view / sizeof of a fixed header class",
               "manager.py hard-codes a header class: " + "; ".join(f"{f.qual}: {norm(n)[:50]}" for f, n in hard[:3]))
+    # every Module the manager creates is told the configured header class explicitly (Module.send_ack and anything else that
+    # builds a header through module.header_cls must use the layout of the rest of the stream); a default on that field would
+    # silently pick the plain layout
+    from .mgr import module_constructions
+
+    for f, c, okc in module_constructions(prog):
+        R8.decide(okc, fkey(f, f"Module(header_cls):{norm(c)[:40]}"), where(f, c), "Module created with header_cls=self.header_cls",
+                  f"{f.qual}: `{norm(c)[:70]}` does not pass the manager's configured header class to the Module (it would build headers of the default layout)")
     init = prog.func(MGR, "MessageManager.__init__")
     sz = [n for n in walk_local(init.node) if isinstance(n, ast.Assign) and norm(n.targets[0]) == "self.header_size"]
     R8.decide(len(sz) == 1 and norm(sz[0].value) == "ctypes.sizeof(self.header_cls)", fkey(init, "header_size"), where(init), "header_size = sizeof(configured header class)",
